@@ -186,6 +186,14 @@ class Sym:
                 else:
                     mods.add(t['dest']['l'])
                 deref = True   # a call may write through any reference it is given
+        # an explicit store through a pointer inside the loop (e.g. the spliced body of a closure assigning a captured `&mut local`)
+        # may assign any local whose address was taken mutably as a whole
+        if any(s0['k'] == 'assign' and s0['p']['pr'] and s0['p']['pr'][0] == '*' and len([x for x in s0['p']['pr'] if x == '*']) >= 1 and s0['p']['pr'][-1] == '*'
+               for bi in self.loops[h] for s0 in b.blocks[bi]['stmts']):
+            if not hasattr(self, '_mutborrowed'):
+                self._mutborrowed = {s0['r']['p']['l'] for blk0 in b.blocks for s0 in blk0['stmts']
+                                     if s0['k'] == 'assign' and s0['r'].get('k') == 'ref' and s0['r'].get('mut') and not s0['r']['p']['pr']}
+            mods |= self._mutborrowed
         self._mods[h] = (mods, deref)
         return self._mods[h]
 
@@ -258,6 +266,8 @@ class Sym:
     def project(self, st, t, prs):
         for pr in prs:
             if pr == '*':
+                if t[0] == 'mref':
+                    t = self.read_local(st, t[1])
                 continue
             if 'f' in pr:
                 f = pr['f']
@@ -324,7 +334,7 @@ class Sym:
         if k in ('ref', 'rawptr'):
             v = self.read_place(st, r['p'])
             if dest is not None and r.get('mut'):
-                st.mutref[dest] = (r['p']['l'], v)
+                st.mutref[dest] = (r['p']['l'], v, not r['p']['pr'])
             return v
         if k == 'bin':
             return fold(('op', r['op'], self.operand(st, r['a'], blk), self.operand(st, r['b'], blk)))
@@ -356,7 +366,14 @@ class Sym:
                     return ('agg', r['adt'], r['variant'], dict(zip(fields, ops)))
                 return ('agg', r['adt'], r['variant'], ops)
             if r['agg'] == 'closure':
-                return ('agg', 'closure', r['closure'], ops)
+                # a capture that is `&mut <whole local>` stays a reference to that local (the closure body may assign through it)
+                ops2 = []
+                for x, v in zip(r['ops'], ops):
+                    if x.get('k') in ('copy', 'move') and not x['p']['pr'] and x['p']['l'] in st.mutref and st.mutref[x['p']['l']][2]:
+                        ops2.append(('mref', st.mutref[x['p']['l']][0]))
+                    else:
+                        ops2.append(v)
+                return ('agg', 'closure', r['closure'], ops2)
             return ('agg', r['agg'], '', ops)
         if k == 'repeat':
             return ('repeat', self.operand(st, r['a'], blk), r['n'])
@@ -393,6 +410,12 @@ class Sym:
             return
         base = self.read_local(st, l)
         real = [x for x in prs if x != '*']
+        if prs and prs[-1] == '*':
+            # `*r = v` where r is (a capture of) `&mut <whole local>`: assigns that local
+            tgt = self.project(st, base, prs[:-1]) if len(prs) > 1 else base
+            if isinstance(tgt, tuple) and tgt[0] == 'mref':
+                st.env[tgt[1]] = val
+                return
         # functional update of a locally built aggregate
         if '*' not in prs and len(real) == 1 and 'f' in real[0] and base[0] == 'agg' and isinstance(base[3], dict) and real[0]['f'] in base[3]:
             d = dict(base[3])
@@ -609,7 +632,7 @@ class Sym:
             return done(('agg', 'core::option::Option', 'None', {}))
         if sp == 'core::mem::replace' and len(args) == 2 and t['args'][0].get('k') in ('copy', 'move') and not t['args'][0]['p']['pr'] and t['args'][0]['p']['l'] in st.mutref:
             # mem::replace(&mut place, v): yields the old value of place and stores v
-            l0, pt0 = st.mutref[t['args'][0]['p']['l']]
+            l0, pt0 = st.mutref[t['args'][0]['p']['l']][:2]
             while pt0[0] == 'upd':
                 pt0 = pt0[1]
             if pt0[0] in ('f', 'idx', 'dc'):
@@ -678,7 +701,7 @@ class Sym:
         st.effects.append(('call', v))
         for a in t['args']:
             if a['k'] in ('copy', 'move') and not a['p']['pr'] and a['p']['l'] in st.mutref:
-                l, pt = st.mutref[a['p']['l']]
+                l, pt = st.mutref[a['p']['l']][:2]
                 while pt[0] == 'upd':
                     pt = pt[1]
                 root = pt
